@@ -166,10 +166,20 @@ func allowShape(allow []string) string {
 	return "(allow-list-with-a-blank-name)"
 }
 
+// nameShape labels (for the signature only) requests for a CONFIGURED channel whose name begins with '/'.
+func nameShape(table []string, name string) string {
+	if strings.HasPrefix(name, "/") && indexOf(table, name) >= 0 {
+		return "(channel-name-with-leading-slash)"
+	}
+	return ""
+}
+
 func relation(wrong, requested string) string {
 	switch {
 	case wrong == requested:
 		return "same-name"
+	case strings.TrimLeft(wrong, "/") == strings.TrimLeft(requested, "/"):
+		return "differs-only-by-leading-slashes"
 	case strings.EqualFold(wrong, requested):
 		return "case-variant-of-requested"
 	case strings.HasPrefix(requested, wrong):
@@ -217,6 +227,10 @@ func requestNames(table []string) []string {
 		add(swapCase(c))
 		add("/" + c)
 		add(c + "/")
+		if strings.HasPrefix(c, "/") {
+			add(c[1:])
+			add(strings.TrimLeft(c, "/"))
+		}
 	}
 	add("")
 	add("zz")
@@ -631,7 +645,7 @@ func (r *rig) judge(rc *reqCase, kindLabel, class, name string, exp int, ob *obs
 		rec.Inconclusive("busy at the stall watchdog", rc)
 		return false
 	}
-	sig := kindLabel + ":" + class + allowShape(r.allowOf(rc)) + ":"
+	sig := kindLabel + ":" + class + nameShape(table, name) + allowShape(r.allowOf(rc)) + ":"
 	suffix := ""
 	if rc.Via != "client" {
 		suffix = ":" + rc.Via
@@ -1252,7 +1266,7 @@ func (r *rig) burst(ep *endpoint, via string, names []string, round int) (bool, 
 		rec.Seen("tuple(kind,via,name-class,expected)", kind+"|"+via+"|"+q.class+"|"+expS)
 		viol := func(what string) {
 			viols++
-			rec.Violation(kind+":"+q.class+":"+what+suffix, rc, map[string]interface{}{"expected_target": q.exp, "observed": q.ob,
+			rec.Violation(kind+":"+q.class+nameShape(r.cfg.Table, q.name)+":"+what+suffix, rc, map[string]interface{}{"expected_target": q.exp, "observed": q.ob,
 				"pushed_bytes_came_out_at_target": q.at, "table": r.cfg.Table, "allow": ep.allow, "burst": names})
 		}
 		switch {
@@ -1644,6 +1658,7 @@ func workload(rec *vcommon.Rec) []cfgSpec {
 	}
 	items = append(items, blankNameWorkload(rec, rng)...)
 	items = append(items, repeatedNameWorkload(rec, rng)...)
+	items = append(items, slashNameWorkload(rec, rng)...)
 	items = append(items,
 		cfgSpec{Kind: "ws", Table: []string{"a", "ab"}, Allows: [][]string{{"a"}, {"zz"}}, Bad: true, Space: "bad-allow-list"},
 		cfgSpec{Kind: "ws", Table: []string{"a", "ab"}, Allows: [][]string{{"ab", "A"}, nil}, Bad: true, Space: "bad-allow-list"},
@@ -1860,6 +1875,107 @@ func repeatedNameWorkload(rec *vcommon.Rec, rng interface{ Intn(int) int }) []cf
 			}
 			items = append(items, cfgSpec{Kind: k.kind, Table: tb, Allows: als, Space: sp})
 		}
+	}
+	return items
+}
+
+// slashNameWorkload: channel names that themselves begin with one or more '/' (the server's command line
+// syntax writes every channel name with a leading slash), and channels of ONE table whose names differ only
+// in the number of leading slashes (b, /b, //b; wire ids /b, //b, ///b). With all allow-lists: both
+// exposed, only the plain one, only the slash-led one, either order. The model is unchanged: a name is a
+// string, "/b" and "b" are different channels.
+func slashNameWorkload(rec *vcommon.Rec, rng interface{ Intn(int) int }) []cfgSpec {
+	var items []cfgSpec
+	const sp = "slash-led-names"
+	bases := []string{"a", "ab", "echo", "a/b", "A", ""}
+	forms := func(b string) []string {
+		f := []string{b, "/" + b, "//" + b}
+		if rec.Thorough() {
+			f = append(f, "///"+b)
+		}
+		return f
+	}
+	for _, b := range bases {
+		f := forms(b)
+		// tcp: every ordered pair of two forms of one base, every allow-list in both orders
+		for i := range f {
+			for j := range f {
+				if i == j {
+					continue
+				}
+				tb := []string{f[i], f[j]}
+				items = append(items, cfgSpec{Kind: "tcp", Table: tb, Allows: allowLists(tb), Space: sp})
+			}
+		}
+		// all forms of the base in one table, seeded order
+		tb := shuffled(rng, f)
+		items = append(items, cfgSpec{Kind: "tcp", Table: tb, Allows: allowLists(tb), Space: sp})
+		// a slash-led name whose plain form is not configured at all, next to an unrelated channel
+		other := pool[rng.Intn(len(pool))]
+		for other == b {
+			other = pool[rng.Intn(len(pool))]
+		}
+		lone := [][]string{{f[1], other}, {other, f[2]}}[rng.Intn(2)]
+		items = append(items, cfgSpec{Kind: "tcp", Table: lone, Allows: allowLists(lone), Space: sp})
+		// websocket: the two paths expose different forms / one all / both orders
+		pair := shuffled(rng, f)[:2]
+		if !strings.HasPrefix(pair[0], "/") && !strings.HasPrefix(pair[1], "/") {
+			pair[1] = f[1]
+		}
+		sub := subsets(pair)
+		items = append(items,
+			cfgSpec{Kind: "ws", Table: pair, Allows: [][]string{{pair[0]}, {pair[1]}}, Space: sp},
+			cfgSpec{Kind: "ws", Table: pair, Allows: [][]string{{pair[1], pair[0]}, sub[rng.Intn(len(sub))]}, Space: sp},
+			cfgSpec{Kind: "ws", Table: shuffled(rng, f), Allows: [][]string{nil, {f[1+rng.Intn(len(f)-1)]}}, Space: sp})
+		if rec.Thorough() {
+			for k := 0; k < 4; k++ {
+				t3 := shuffled(rng, f)[:3]
+				als := allowLists(t3)
+				items = append(items, cfgSpec{Kind: "ws", Table: t3, Allows: [][]string{als[rng.Intn(len(als))], als[rng.Intn(len(als))]}, Space: sp})
+			}
+		}
+	}
+	// every other kind: two or three forms of a seeded base, sometimes next to unrelated channels, seeded order;
+	// the lists that decide (only a slash-led one, only the form with the fewest slashes, all) and seeded ones
+	mixed := func() (tb []string, decisive [][]string) {
+		f := forms(bases[rng.Intn(len(bases))])
+		fs := shuffled(rng, f)[:2+rng.Intn(2)]
+		sort.Slice(fs, func(i, j int) bool { return len(fs[i]) < len(fs[j]) })
+		tb = append(tb, fs...)
+		for k := rng.Intn(3); k > 0; k-- {
+			if o := pool[rng.Intn(len(pool))]; indexOf(tb, o) < 0 {
+				tb = append(tb, o)
+			}
+		}
+		return shuffled(rng, tb), [][]string{{fs[len(fs)-1]}, {fs[0]}, nil, {fs[1], fs[0]}}
+	}
+	for _, k := range []struct {
+		kind string
+		n, l int
+	}{{"unix", rec.Pick(6, 24), 7}, {"tcp", rec.Pick(2, 12), 7}, {"udp", rec.Pick(2, 8), 3}, {"stdio", rec.Pick(3, 10), 3}, {"dns", rec.Pick(2, 4), 1}} {
+		for i := 0; i < k.n; i++ {
+			tb, als := mixed()
+			all := allowLists(tb)
+			for len(als) < k.l {
+				als = append(als, all[1+rng.Intn(len(all)-1)])
+			}
+			if k.kind == "dns" {
+				// one server per process at a time: one list per configuration, the deciding ones in turn
+				als = als[i%3 : i%3+1]
+			} else {
+				als = als[:k.l]
+			}
+			items = append(items, cfgSpec{Kind: k.kind, Table: tb, Allows: als, Space: sp})
+		}
+	}
+	// simultaneous requests for names that differ only by leading slashes on one session
+	for _, kind := range []string{"tcp", "unix", "ws", "stdio"} {
+		tb := shuffled(rng, forms(bases[rng.Intn(len(bases))]))
+		c := cfgSpec{Kind: kind, Table: tb, Allows: [][]string{nil}, Space: sp, Rounds: rec.Pick(15, 60), Par: 8}
+		if kind == "ws" {
+			c.Allows = [][]string{nil, {tb[0], tb[1]}}
+		}
+		items = append(items, c)
 	}
 	return items
 }
